@@ -133,6 +133,40 @@ CHECKS['C10'] = dict(
     note=MON_NOTE,
     technique=TECH + '; in-run monitor + post-run probe: substitute-back law')
 
+CHECKS['C03'] = dict(
+    engine='pipeline-sim', design='DESIGN.md §4 C03',
+    text='Every erasure round of simulated pipeline runs (early timer fires and clock jumps '
+         'injected during the transformation): attribute-level snapshot diff must consist of '
+         'permitted removals only; a run in which the timer fired must equal the fault-free run '
+         'of the same tape; the inference obligation that is certain for Kotlin (omitted type '
+         'arguments of a constructor call without expected type need every type parameter in a '
+         'constructor parameter type) is checked on the erased program. Typability under '
+         'inference for Java is judged by the real javac in C02 (erased leg).',
+    note='Trusted: sim/snap.asnap/adiff cover every attribute. kotlinc/scalac/groovyc are not '
+         'installed; the general inference-mode reference checker of DESIGN.md §3.4 is not built, '
+         'only its certain fragment. One known finding (C03-K1).',
+    technique=TECH + '; before/after structural diff, timer-fault equivalence, certain inference obligation')
+CHECKS['C04'] = dict(
+    engine='pipeline-sim + real javac', design='DESIGN.md §4 C04',
+    text='TypeOverwriting applied 6 times per simulated program (after 0-3 erasure rounds, '
+         'timer faults, scheduler bias towards type arguments): single-edit shape of the diff, '
+         'unrelatedness of old and new type under the reference relation, message naming the '
+         'replaced type / the new type, visibility of the change in the text, rejection by the '
+         'real javac for Java, and unchanged program and translations when nothing is reported.',
+    note='Trusted: sim/refrel.py, javac 17. Must-reject for Kotlin/Groovy/Scala rests on '
+         'unrelatedness + visibility only. Three defects repaired (C04-F1..F3), four known '
+         'findings (C04-K1..K4).',
+    technique=TECH + '; before/after structural diff + reference relation + real javac as judge')
+CHECKS['C12'] = dict(
+    engine='pipeline-sim', design='DESIGN.md §4 C12',
+    text='Stage programs of simulated pipeline runs translated by their language\'s translator: '
+         'bracket/quote balance, declaration inventory against scanners of the text, and '
+         'sentinel taint (one annotation at a time replaced by a fresh sentinel type in a pickled '
+         'copy; it must appear in the text iff the language prints that annotation).',
+    note='Trusted: the per-language expectation table and header scanners of checks/c12.py. '
+         'Three known findings (C12-K1..K3: documented translator design).',
+    technique=TECH + '; sentinel taint + inventory scanners on emitted text')
+
 NOT_YET = {
 }
 
